@@ -1090,6 +1090,15 @@ def geometry_rule(ctx, rid="R8.E1"):
                 for k in range(3):
                     if not eq(c[k], cen[k]):
                         return f"{elem}, {label}: centroid component {'xyz'[k]} = {c[k]}, expected {cen[k]}"
+                # the first moments through the integration routine itself (Integrate_e with a function of the position, on the
+                # same group objects at every stage): integral of x_k = centroid_k * measure
+                mt_ = W.enum(MT, "mass")
+                for k in range(dim):
+                    fk = src_lambda(W, "lambda x, y, z: " + "xyz"[k])
+                    tot_ = sum((polys(W.call(g, "Integrate_e", fk, mt_)) for g in W.call(mesh, "Get_list_groupElem", dim)), [])
+                    tot_ = sum(tot_, Poly.const(0))
+                    if not eq(tot_, cen[k] * meas):
+                        return f"{elem}, {label}: Integrate_e of the coordinate {'xyz'[k]} over the domain gives {tot_}, centroid * measure is {cen[k] * meas} (integration points of an earlier geometry?)"
                 return None
 
             bad = check("as built", Q(2), want_c)
